@@ -24,7 +24,7 @@ def partitions(tier, seed):
         parts.append(sp.S(PROP, "C02", k, w, budget=20, cfg={"warn": True}))
     sk = sp.struct_keys()
     if quick:
-        sk = sp.rotate(sk, seed, len(sk) // 2)
+        sk = sp.rotate(sk, seed, len(sk) // 3)
     for k in sk:
         m = sp.min_size(k)
         lo, hi = (m, min(m + 2, 9)) if quick else (0, min(m + 4, 14))
@@ -33,7 +33,7 @@ def partitions(tier, seed):
     G = sp.gen()
     ccs = sp.cc_list()
     if quick:
-        ccs = sp.rotate(ccs, seed + 1, 16)
+        ccs = sp.rotate(ccs, seed + 1, 9)
     for cc in ccs:
         for label, data in G.commands(cc, minimal=quick):
             tr = sp.trace_of(sp.cmd_key(), data)
@@ -47,4 +47,18 @@ def partitions(tier, seed):
             for warn in (False, True):
                 parts.append(sp.M(PROP, "C02", sp.rsp_key(), "%s-%s%s" % (sp.cc_name(cc), label, "-warn" if warn else ""),
                                   data, free, budget=40, cfg={"cc": cc, "enc": enc, "warn": warn}))
+    # size-perturbed variants: whatever strict decoding (or warn mode with value warnings only) accepts among
+    # them must still re-encode to the input
+    from .c13 import size_variants
+
+    for cc in ccs:
+        for label, data in G.commands(cc, minimal=True):
+            tr = sp.trace_of(sp.cmd_key(), data)
+            for warn in (False, True):
+                parts.extend(size_variants(PROP, "C02", sp.cmd_key(), "%s-%s%s" % (sp.cc_name(cc), label, "-warn" if warn else ""), data, tr,
+                                           cfg={"warn": warn}, budget=30))
+        for label, enc, data in G.responses(cc, minimal=True):
+            tr = sp.trace_of(sp.rsp_key(), data, cc=cc, enc=enc)
+            parts.extend(size_variants(PROP, "C02", sp.rsp_key(), "%s-%s" % (sp.cc_name(cc), label), data, tr,
+                                       cfg={"cc": cc, "enc": enc}, budget=30))
     return parts
